@@ -544,4 +544,5 @@ def main():
         s.pop()
     print('reachable return paths: %d of %d' % (w, len(outs)))
 
-main()
+if __name__ == '__main__':
+    main()
